@@ -318,7 +318,9 @@ def run_config(exp, seed, workdir):
                             if c2["x"].shape != want_x2.shape or not np.array_equal(c2["x"], want_x2):
                                 raise Div("C14", "sum_input_plus_synthetic", "input block slice + scaled synthetic", "mismatch at sub-block %d" % sb)
             # 5. nothing injected, one sub-block: the output reproduces the input bit for bit
-            if not inst["tone"] and cfg["nsub"] == 1:
+            # (only where the requantiser's own statistics -- from the first 10000 samples by default -- are taken from the
+            # whole block, as the target statistics are; beyond that size the identity is not implied by the statement)
+            if not inst["tone"] and cfg["nsub"] == 1 and not inst["big"]:
                 for k, blk in enumerate(out_blocks):
                     rd = rc["reads"][k]
                     want = guppi.encode_block(truth[rd["file"] * cfg["bpf"] + rd["index"]], inst["bits"])
